@@ -59,8 +59,12 @@ class P:
         self.excluded = 0
         nprog = 600 if tier == "quick" else 40000
         bases = []
-        for _ in range(nprog):
-            ts = progs.gen_stmts(rng, depth=rng.choice([2, 3, 4]))
+        A = ("ref", "a")
+        crafted = [[("un", p, ("post", ("post", A, "++"), q))] for p in prefix for q in postfix] + \
+                  [[("post", ("post", ("post", A, "++"), "--"), "++")], [("post", ("un", "-", ("post", A, "++")), "--")],
+                   [("bin", "+", ("un", "-", ("post", ("post", A, "--"), "++")), ("post", ("post", ("lit", "1"), "++"), "++"))]]
+        for k in range(nprog + len(crafted)):
+            ts = crafted[k] if k < len(crafted) else progs.gen_stmts(rng, depth=rng.choice([2, 3, 4]))
             out, spans, stmt_starts = [], [], []
             juxt = rng.random() < 0.15
             for i, t in enumerate(ts):
@@ -110,7 +114,7 @@ class P:
             # parenthesis variants (char spans == byte spans only for ASCII programs: restrict)
             known = []
             if spans and s.isascii():
-                for (a, e, kind) in rng.sample(spans, min(len(spans), 4)):
+                for (a, e, kind) in (spans if len(spans) <= 8 else rng.sample(spans, 4)):
                     k = rng.choice([1, 2, 5])
                     v = s[:a] + "(" * k + s[a:e] + ")" * k + s[e:]
                     d19 = juxt and a in stmt_starts[1:]
